@@ -85,6 +85,7 @@ func (bucket *Bucket) _closeSqliteDB() {
 func (bucket *Bucket) CloseAndDelete(ctx context.Context) (err error) {
 	bucket.mutex.Lock()
 	defer bucket.mutex.Unlock()
+	bucket.closed = true // a later Close() of this handle must not touch the registry again
 	bucket._closeSqliteDB()
 	return deleteBucket(ctx, bucket)
 }
